@@ -1972,6 +1972,102 @@ def f7(prog, tier="quick"):
         raise Broken("only %d type graphs evaluated (floor 30)" % n)
     if bad:
         findings.append({"key": key, "where": "libzwerg/" + f["l"], "msg": bad, "detail": None})
+    # DW_AT_decl_file / DW_AT_call_file: the index stored in THE ATTRIBUTE, resolved in the file table of the unit of THE DIE it was
+    # handed.  An inlined-subroutine DIE has both (call_file: where it was inlined; decl_file, possibly only through its abstract
+    # origin: where the function was declared), the two units of the graph have different tables.
+    class Files:
+        def __init__(self, names):
+            self.names = names
+            self.addr = id(self)
+
+    def diecu(ev, o, a):
+        d = die_of(a[0])
+        if d is None or getattr(d, "unit", None) is None:
+            return None
+        a[1].die = d.unit
+        return a[1]
+
+    def getsrcfiles(ev, o, a):
+        u = die_of(a[0])
+        if u is None or not hasattr(u, "files"):
+            return -1
+        a[1].store(u.files)
+        if len(a) > 2 and a[2] is not None:
+            a[2].store(len(u.files.names))
+        return 0
+
+    def cstr(t):
+        return Ptr([ord(c) for c in t] + [0], 0)
+
+    def filesrc(ev, o, a):
+        fl, idx = a[0], int(a[1])
+        if not isinstance(fl, Files) or not (0 <= idx < len(fl.names)):
+            return None
+        return cstr(fl.names[idx])
+
+    def decl_file_of(ev, o, a):
+        d = die_of(a[0])
+        seen = 0
+        while d is not None and seen < 4:
+            if A["decl_file"] in d.attrs:
+                idx = d.attrs[A["decl_file"]][1]
+                return cstr(d.unit.files.names[idx]) if 0 <= idx < len(d.unit.files.names) else None
+            nxt = d.attrs.get(A["abstract_origin"]) or d.attrs.get(A["specification"])
+            d = nxt[1] if nxt else None
+            seen += 1
+        return None
+
+    def text_of(x):
+        if isinstance(x, Ptr):
+            cells, out, i = x.cells(), "", x.off
+            while i < len(cells) and cells[i] not in (0, None):
+                out += chr(cells[i] & 0xff)
+                i += 1
+            return out
+        if isinstance(x, StdStr):
+            return x.b.decode("latin-1")
+        return x
+    ev.hooks.update({"dwarf_diecu": diecu, "dwarf_getsrcfiles": getsrcfiles, "dwarf_filesrc": filesrc, "dwarf_decl_file": decl_file_of,
+                     "std::make_unique<value_str*": lambda ev_, o, a: ("vstr", text_of(a[0]), a[1] if len(a) > 1 else None)})
+    key2 = "F7:file"
+    bad2 = None
+    n2 = 0
+    try:
+        u1, u2 = Node("compile_unit", "one.c"), Node("compile_unit", "two.c")
+        u1.files, u2.files = Files(["<none>", "one.c", "one.h", "shared.h"]), Files(["<none>", "two.c", "shared.h", "two.h"])
+        u1.unit, u2.unit = u1, u2
+        origin = Node("subprogram", "callee")
+        origin.unit = u1
+        origin.attrs[A["decl_file"]] = (F["data1"], 2)
+        for unit, decl, call in ((u1, None, 1), (u1, 3, 1), (u2, None, 1), (u2, 2, 3)):
+            d = Node("inlined_subroutine")
+            d.unit = unit
+            d.attrs[A["abstract_origin"]] = (F["ref_addr"], origin)
+            d.attrs[A["call_file"]] = (F["data1"], call)
+            if decl is not None:
+                d.attrs[A["decl_file"]] = (F["data1"], decl)
+            for code in ([A["call_file"]] + ([A["decl_file"]] if decl is not None else [])):
+                attr = Struct("Dwarf_Attribute", {})
+                fill_attr(attr, d, code)
+                vd = Obj("value_die")
+                vd.m_die = mkdie(d)
+                ev.steps = 0
+                r = ev.call(f, None, [attr, vd, Sym.of("dwctx")])
+                n2 += 1
+                v = r[1] if isinstance(r, tuple) and r[0] == "value" else r
+                got = v[1] if isinstance(v, tuple) and v and v[0] == "vstr" else repr(v)
+                want = unit.files.names[d.attrs[code][1]]
+                if got != want and bad2 is None:
+                    nm = "DW_AT_call_file" if code == A["call_file"] else "DW_AT_decl_file"
+                    bad2 = "%s = %d of an inlined-subroutine DIE in unit %s (files %s; its abstract origin is declared in %s of another unit) is decoded as %r; the attribute stores index %d of this unit's table: %r" % (
+                        nm, d.attrs[code][1], unit.name, unit.files.names[1:], "one.h", got, d.attrs[code][1], want)
+    except OutOfBounds as x:
+        raise Broken("handle_at_dependent_value cannot be evaluated for DW_AT_decl_file: %s" % x)
+    except Thrown as x:
+        bad2 = bad2 or "decoding DW_AT_decl_file / DW_AT_call_file raises an error (%s) on a well-formed DIE" % x
+    inst.append((key2, {"attributes": n2}))
+    if bad2:
+        findings.append({"key": key2, "where": "libzwerg/" + f["l"], "msg": bad2, "detail": None})
     return inst, findings
 
 
@@ -2408,4 +2504,203 @@ def f8(prog):
     inst.append((key, {"block_lengths": 9}))
     if bad:
         findings.append({"key": key, "where": "libzwerg/" + f["l"], "msg": bad + ": the value comes out truncated or from the wrong bytes, without any diagnostic", "detail": None})
+    return inst, findings
+
+
+def m3(prog):
+    """die_it_producer <child_iterator>::next - with import_partial_units, drop_finished_imports and get_it_range, i.e. the traversal
+    behind `child` (and, instantiated for the other iterator, `entry`) - interpreted from source on an abstract forest with partial units
+    imported first, in the middle, LAST among their siblings, nested, twice, and with an import that refers to a compile unit.  Cooked:
+    the children come out in order with every DW_TAG_imported_unit replaced, recursively and in place, by the children of the unit it
+    refers to; each DIE carries the chain of the import DIEs it was reached through (innermost first), each import DIE being the DIE
+    that did the importing; results are numbered from 0.  Raw: the stored children, imports listed as themselves, no chain.  The
+    iterator's operator* hands out a pointer into the iterator, which moves on when the iterator is bumped; reading through it after
+    the iterator has reached its end is a memory error."""
+    from cxxobj import CxxEvaluator, Obj, Struct, Sym, Vec, OutOfBounds
+    from absint import Thrown
+    inst, findings = [], []
+    cls = [c for c in prog.records if c.startswith("(anonymous namespace)::die_it_producer<") and "child_iterator" in c]
+    if len(cls) != 1:
+        raise Broken("anchor die_it_producer <child_iterator> vanished (%d instantiations)" % len(cls))
+    cls = cls[0]
+    nxt = [f for f in prog.funcs.values() if f.get("cls") == cls and f["n"] == "next" and f.get("body") is not None]
+    if len(nxt) != 1:
+        raise Broken("anchor die_it_producer <child_iterator>::next vanished")
+    dn = {c["n"]: ("enum", c["n"], c["v"]) for e in prog.enums.values() if e["q"] == "doneness" for c in e["consts"]}
+    T, A = {}, {}
+    for e in prog.enums.values():
+        if e["file"] == "/usr/include/dwarf.h":
+            for c in e["consts"]:
+                if c["n"].startswith("DW_TAG_"):
+                    T[c["n"][7:]] = c["v"]
+                elif c["n"].startswith("DW_AT_"):
+                    A[c["n"][6:]] = c["v"]
+    if set(dn) < {"raw", "cooked"} or "imported_unit" not in T or "import" not in A:
+        raise Broken("enum doneness / DW_TAG / DW_AT constants vanished")
+
+    class N:
+        def __init__(self, name, tag, parent=None, target=None):
+            self.name, self.tag, self.children, self.target, self.parent = name, T[tag], [], target, parent
+            self.addr = id(self)
+            if parent is not None:
+                parent.children.append(self)
+
+        def __repr__(self):
+            return self.name
+
+    class CIt:
+        """child_iterator: a position among the children of one DIE; at_end = the end() sentinel"""
+        def __init__(self, node, pos):
+            self.node, self.pos = node, pos
+            self.addr = id(self)
+
+        def at_end(self):
+            return self.node is None or self.pos >= len(self.node.children)
+
+        def copy_value(self):
+            return CIt(self.node, self.pos)
+
+        def assign_from(self, o):
+            self.node, self.pos = o.node, o.pos
+
+    class DiePtr:
+        """the Dwarf_Die * operator* hands out: it points INTO the iterator"""
+        is_pointer_model = True
+
+        def __init__(self, it):
+            self.it = it
+            self.addr = id(it)
+
+        def cur(self):
+            if self.it.at_end():
+                raise OutOfBounds("a Dwarf_Die is read through a pointer into an iterator that has since been moved to its end (the import DIE was the last child)")
+            return self.it.node.children[self.it.pos]
+
+        def load(self):
+            return mkdie(self.cur())
+
+        def copy_value(self):
+            return self
+
+    def mkdie(n):
+        d = Struct("Dwarf_Die", {})
+        d.cu, d.node = Sym.of("cu"), n
+        return d
+
+    def node_of(x):
+        if isinstance(x, DiePtr):
+            return x.cur()
+        return getattr(x, "node", None)
+
+    def inc(ev, o, a):
+        if a:
+            old = o.copy_value()
+            o.pos += 1
+            return old
+        o.pos += 1
+        return o
+
+    def attr(ev, o, a):
+        n, code, mem = node_of(a[0]), int(a[1][2] if isinstance(a[1], tuple) else a[1]), a[2]
+        if code == A["import"] and n.target is not None:
+            mem.target = n.target
+            return mem
+        return None
+
+    def formref(ev, o, a):
+        at, mem = a
+        if getattr(at, "target", None) is None:
+            return None
+        mem.cu, mem.node = Sym.of("cu"), at.target
+        return mem
+    hooks = {
+        "ctor:child_iterator": lambda ev, o, a: (a[0].copy_value() if isinstance(a[0], CIt) else CIt(node_of(a[0]), 0)) if a else CIt(None, 0),
+        "child_iterator::end": lambda ev, o, a: CIt(None, 0),
+        "child_iterator::operator!=": lambda ev, o, a: not ((o.at_end() and a[0].at_end()) or (o.node is a[0].node and o.pos == a[0].pos)),
+        "child_iterator::operator==": lambda ev, o, a: (o.at_end() and a[0].at_end()) or (o.node is a[0].node and o.pos == a[0].pos),
+        "child_iterator::operator++": inc,
+        "child_iterator::operator*": lambda ev, o, a: DiePtr(o),
+        "dwarf_tag": lambda ev, o, a: node_of(a[0]).tag,
+        "dwarf_hasattr": lambda ev, o, a: 1 if (int(a[1][2] if isinstance(a[1], tuple) else a[1]) == A["import"] and node_of(a[0]).target is not None) else 0,
+        "dwarf_attr": attr,
+        "dwarf_formref_die": formref,
+        "dwarf_cu_getdwarf": lambda ev, o, a: Sym.of("dwarf"),
+        "throw_libdw": lambda ev, o, a: (_ for _ in ()).throw(Thrown("libdw error")),
+    }
+    ev = CxxEvaluator(hooks, {}, prog=prog)
+    DWCTX = Sym.of("dwctx")
+    #  CU R { a ; i1 -> P1 ; b { i4 -> P2 (last child) } ; i5 -> C2 (a compile unit) ; i6 -> P1 (again, and last) }
+    #  P1 { x ; i2 -> P2 ; y { z } ; i3 -> P3 (last) }     P2 { p }      P3 { q ; r }      C2 { c }
+    R = N("R", "compile_unit")
+    P1, P2, P3, C2 = N("P1", "partial_unit"), N("P2", "partial_unit"), N("P3", "partial_unit"), N("C2", "compile_unit")
+    N("p", "variable", P2)
+    N("q", "variable", P3), N("r", "variable", P3)
+    N("c", "variable", C2)
+    N("x", "variable", P1)
+    N("i2", "imported_unit", P1, P2)
+    y = N("y", "structure_type", P1)
+    N("z", "member", y)
+    N("i3", "imported_unit", P1, P3)
+    N("a", "variable", R)
+    N("i1", "imported_unit", R, P1)
+    b = N("b", "namespace", R)
+    N("i4", "imported_unit", b, P2)
+    N("i5", "imported_unit", R, C2)
+    N("i6", "imported_unit", R, P1)
+    E0 = N("E0", "compile_unit")          # a unit that consists of one import
+    N("j", "imported_unit", E0, P3)
+    lone = N("lone", "compile_unit")      # no children at all
+
+    def expected(n, cooked, chain=()):
+        out = []
+        for c in n.children:
+            if cooked and c.tag == T["imported_unit"] and c.target is not None:
+                out += expected(c.target, True, (c.name,) + chain)
+            else:
+                out.append((c.name, list(chain) if cooked else []))
+        return out
+
+    def chain_of(v):
+        out = []
+        while v is not None:
+            out.append(getattr(getattr(v.m_die, "node", None), "name", "?"))
+            v = v.m_import
+        return out
+    ctor = [c for c in prog.funcs.values() if c.get("cls") == cls and c.get("isctor") and len(c["params"]) == 3]
+    if len(ctor) != 1:
+        raise Broken("anchor die_it_producer constructor vanished")
+    n_run = 0
+    for mode in ("cooked", "raw"):
+        key = "M3:child:" + mode
+        bad = None
+        for start in (R, P1, b, y, E0, lone):
+            try:
+                ev.steps = 0
+                p = ev.construct(ctor[0], Obj(cls), [DWCTX, mkdie(start), dn[mode]])
+                got = []
+                for _ in range(40):
+                    v = ev.call(nxt[0], p, [])
+                    if v is None:
+                        break
+                    got.append((getattr(getattr(v.m_die, "node", None), "name", "?"), chain_of(v.m_import), v.m_pos))
+                else:
+                    bad = bad or "`child` of %s in %s mode does not end" % (start, mode)
+                    continue
+                again = ev.call(nxt[0], p, [])
+                n_run += 1
+            except OutOfBounds as x:
+                bad = bad or "`child` of %s in %s mode: %s (memory error)" % (start, mode, x)
+                continue
+            except Thrown as x:
+                bad = bad or "`child` of %s in %s mode raises an error (%s)" % (start, mode, x)
+                continue
+            want = expected(start, mode == "cooked")
+            if ([(g[0], g[1]) for g in got] != want or [g[2] for g in got] != list(range(len(got))) or again is not None) and bad is None:
+                bad = "`child` of %s in %s mode yields %s numbered %s; expected %s numbered from 0 (name, import chain innermost first)%s" % (
+                    start, mode, [(g[0], g[1]) for g in got], [g[2] for g in got], want, "" if again is None else "; and it yields again after it was exhausted")
+        inst.append((key, {"start_DIEs": 6}))
+        if bad:
+            findings.append({"key": key, "where": "libzwerg/" + nxt[0]["l"], "msg": bad, "detail": None})
+    if n_run < 8:
+        raise Broken("only %d traversals evaluated (floor 8)" % n_run)
     return inst, findings
